@@ -31,12 +31,12 @@ type V struct {
 	Keys []string // Obj keys, parallel to L
 }
 
-func S(s string) *V       { return &V{K: Str, S: s} }
-func A(l ...*V) *V        { return &V{K: Arr, L: l} }
-func NullV() *V           { return &V{K: Null} }
-func NumV(s string) *V    { return &V{K: Num, S: s} }
-func BoolV(b bool) *V     { return &V{K: Bool, B: b} }
-func O() *V               { return &V{K: Obj} }
+func S(s string) *V    { return &V{K: Str, S: s} }
+func A(l ...*V) *V     { return &V{K: Arr, L: l} }
+func NullV() *V        { return &V{K: Null} }
+func NumV(s string) *V { return &V{K: Num, S: s} }
+func BoolV(b bool) *V  { return &V{K: Bool, B: b} }
+func O() *V            { return &V{K: Obj} }
 func (v *V) Put(k string, x *V) *V {
 	v.Keys = append(v.Keys, k)
 	v.L = append(v.L, x)
